@@ -296,7 +296,7 @@ fn nth_string(mut idx: u64, len: usize) -> String {
 }
 
 pub fn run(ctx: &mut Ctx) {
-    let k: usize = ctx.tier.pick(6, 7);
+    let k: usize = ctx.tier.pick(6, 8);
     let mut stop = false;
     'outer: for len in 0..=k {
         let n = 6u64.pow(len as u32);
@@ -355,7 +355,7 @@ pub fn replay(case: &Value) -> Result<(), Fail> {
 
 pub const DEF: CheckDef = CheckDef {
     id: "C10",
-    rule: "All strings of <=k symbols (k=6 quick, 7 thorough) over {a, LF, CR, TAB, é, 😀} x every byte offset 0..=len+1 and every offset pair (all ordered pairs, a third of the inverted ones), plus proptest strings (<=40 chunks incl. CRLF, lone CR, tabs, multi-byte, U+2028) with two scaled offsets. Oracle: direct definitions (line = 1 + LFs before the offset, column = 1 + chars since the last LF, containing line, lines overlapping a non-empty span) compared with Position::new/line_col/line_of, Span::new/lines/lines_span, Pair::line_col (PairsBuilder and two real pest::state runs), Error::new_from_pos/new_from_span fields and the rendered text (header L:C, line row text, marker column, row numbers). Non-trivial = CRLF or a multi-byte char before the offset, or a span overlapping >=2 lines; distinct = distinct (string, offsets).",
+    rule: "All strings of <=k symbols (k=6 quick, 8 thorough) over {a, LF, CR, TAB, é, 😀} x every byte offset 0..=len+1 and every offset pair (all ordered pairs, a third of the inverted ones), plus proptest strings (<=40 chunks incl. CRLF, lone CR, tabs, multi-byte, U+2028) with two scaled offsets. Oracle: direct definitions (line = 1 + LFs before the offset, column = 1 + chars since the last LF, containing line, lines overlapping a non-empty span) compared with Position::new/line_col/line_of, Span::new/lines/lines_span, Pair::line_col (PairsBuilder and two real pest::state runs), Error::new_from_pos/new_from_span fields and the rendered text (header L:C, line row text, marker column, row numbers). Non-trivial = CRLF or a multi-byte char before the offset, or a span overlapping >=2 lines; distinct = distinct (string, offsets).",
     assumptions: &[
         "marker alignment is not asserted when a lone CR (not followed by LF) precedes the offset on its line: the renderer strips it from the shown text and the prose does not say how it is displayed (counted under excluded_by_construction)",
         "lines()/lines_span() of an EMPTY span may be nothing or the containing line; span-error end column may be the exact one or the documented 'visual LF' adjustment",
